@@ -60,6 +60,7 @@ CFG = """CONSTANTS
   MaxEdits = %(edits)d
   Dev_StaleCfgSnapshot = %(d1)s
   Dev_DiffIgnoresAddedKeys = %(d2)s
+  Compound = %(compound)s
   EmitHist = %(emit)s
 INIT Init
 NEXT Next
@@ -95,7 +96,10 @@ OPT_KEYS = [("max_age", "100000", "200000"), ("max_age_variance", "5", "9"), ("c
 #  rlimit_*, virtualenv_py_ver and the like are not and are therefore not used)
 # the [env:<name>] section: version -> body lines ("" = no section at all)
 ENV_STYLES = [("FOO = one\n", "FOO = two\n"), ("", "FOO = two\n"), ("A_KEY = 1\n", "B_KEY = 1\n"),
-              ("FOO = one\nBAR = x\n", "FOO = one\n")]
+              ("FOO = one\nBAR = x\n", "FOO = one\n"),
+              # values parse_env_dict rewrites ($VAR references are expanded when a watcher is built AND when a
+              # reload compares): an unchanged section must still compare equal
+              ("FOO = $PATH:one\n", "FOO = $PATH:two\n"), ("FOO = one\n", "FOO = $PATH\nBAR =  y \n")]
 
 
 # Constant extras of a watcher section, chosen per watcher by the seeded spelling and left alone by every edit:
@@ -612,12 +616,13 @@ def replay_many(jobs, scratch, procs=16):
 # ------------------------------------------------------------------------------------------------
 # TLC
 # ------------------------------------------------------------------------------------------------
-def _cfg(scratch, tag, variant, devs, emit, edits=4):
+def _cfg(scratch, tag, variant, devs, emit, edits=4, compound=False):
     fixed = devs == ("FALSE", "FALSE")
     p = os.path.join(scratch, "ReloadConfig_%s.cfg" % tag)
     with open(p, "w") as fh:
         fh.write(CFG % {"v": variant, "edits": edits, "d1": devs[0], "d2": devs[1],
-                        "emit": "TRUE" if emit else "FALSE", "strict": STRICT if fixed else ""})
+                        "emit": "TRUE" if emit else "FALSE", "strict": STRICT if fixed else "",
+                        "compound": "TRUE" if compound else "FALSE"})
     return p
 
 
@@ -670,11 +675,16 @@ def _run(verdict, cov, tier, seed, rng, thorough, scratch):
     # (tag, names, Dev_ constants, emit behaviours, extra TLC arguments, workers, MaxEdits)
     def simulate(num, k):
         return ["-simulate", "num=%d" % num, "-depth", "40", "-seed", str(seed * 10 + k)]
+    # (a negative MaxEdits = that many edits WITH compound revisions: two keys / two sections in one file version)
     plans = [("two_ascoded_emit", "two", AS_CODED, True, [], 8, 4),
              ("two_fixed", "two", fixed, False, [], 4, 4),
-             ("three_ascoded_sim", "three", AS_CODED, True, simulate(40 if not thorough else 2500, 1), 4, 4)]
+             ("three_ascoded_sim", "three", AS_CODED, True, simulate(40 if not thorough else 2500, 1), 4, -4),
+             ("two_ascoded_compound_emit", "two", AS_CODED, True, [], 4, -2),
+             ("two_fixed_compound", "two", fixed, False, [], 4, -2)]
     if thorough:
-        plans += [("three_ascoded", "three", AS_CODED, False, [], 12, 4),
+        plans += [("two_fixed_compound3", "two", fixed, False, [], 12, -3),
+                  ("two_ascoded_compound3", "two", AS_CODED, False, [], 12, -3),
+                  ("three_ascoded", "three", AS_CODED, False, [], 12, 4),
                   ("three_fixed", "three", fixed, False, [], 12, 4),
                   ("two_ascoded_5", "two", AS_CODED, False, [], 8, 5),
                   ("two_fixed_5", "two", fixed, False, [], 8, 5),
@@ -682,12 +692,12 @@ def _run(verdict, cov, tier, seed, rng, thorough, scratch):
 
     def one(pl):
         tag, variant, devs, emit, extra, workers, edits = pl
-        return tlcrun.run_tlc("ReloadConfig_MC.tla", _cfg(scratch, tag, variant, devs, emit, edits), scratch,
+        return tlcrun.run_tlc("ReloadConfig_MC.tla", _cfg(scratch, tag, variant, devs, emit, abs(edits), edits < 0), scratch,
                               workers=workers, extra_args=extra, timeout=1500, heap="6g")
-    first = plans[:3]
-    with ThreadPoolExecutor(max_workers=3) as ex:
+    first = plans[:5]
+    with ThreadPoolExecutor(max_workers=5) as ex:
         outs = list(ex.map(one, first))
-    for pl in plans[3:]:
+    for pl in plans[5:]:
         outs.append(one(pl))
     results = dict(zip([p[0] for p in plans], outs))
     tlc_wall = 0.0
@@ -720,6 +730,7 @@ def _run(verdict, cov, tier, seed, rng, thorough, scratch):
     # --- sequences for the replay -----------------------------------------------------------------
     lines2 = sorted(set(_seq_lines(results["two_ascoded_emit"]["out"])))
     lines3 = sorted(set(_seq_lines(results["three_ascoded_sim"]["out"])))
+    linesC = sorted(set(_seq_lines(results["two_ascoded_compound_emit"]["out"])))
     lines6 = sorted(set(_seq_lines(results["three_ascoded_sim6"]["out"]))) if thorough else []
     for tag in results:
         results[tag]["out"] = ""
@@ -732,9 +743,13 @@ def _run(verdict, cov, tier, seed, rng, thorough, scratch):
     want3 = 100 if not thorough else 8000
     pick2 = lines2 if len(lines2) <= want2 else rng.sample(lines2, want2)
     pick3 = (lines3 if len(lines3) <= want3 else rng.sample(lines3, want3)) + lines6
+    wantC = 150 if not thorough else 10000
+    compound = [l for l in linesC if "set2" in l or "both" in l]
+    pick3 = pick3 + (compound if len(compound) <= wantC else rng.sample(compound, wantC))
     seqs = [_parse_seq(l) for l in pick2 + pick3]
     cov["sequences_emitted"] = {"two_names_exhaustive": len(lines2), "three_names_simulated": len(lines3),
                                 "three_names_six_edits_simulated": len(lines6),
+                                "two_names_two_edits_with_compound_revisions": len(compound),
                                 "two_names_violating_demanded_in_model": model_d8_2}
     jobs = [(i, s, (seed * 1000003 + i * 7919 + 11) & 0x7FFFFFFF) for i, s in enumerate(seqs)]
     t0 = time.time()
